@@ -649,6 +649,8 @@ def main_check(module, argv=None):
     finally:
         if home and os.path.isdir(home) and os.path.basename(home).startswith("evo_verif_home_"):
             shutil.rmtree(home, ignore_errors=True)
+    sys.stdout.flush()
+    sys.stdout.write("\n")    # the implementation may have left an unterminated line on stdout
     for l in known_lines:
         print(l)
     for v in violations[:20]:
